@@ -11,7 +11,7 @@
   interpretation `VarOps` of `PatternMatchVariance` and of `<` on its results (so they do not depend on float64
   rounding), and every table set satisfying the decidable shape condition `wfRow` (per-run obligation).
 -/
-import Gzx.Proofs.OneDRowExtTotal3
+import Gzx.Proofs.OneDRowExtMeta
 namespace Gzx.Properties.C06RowUPC
 open Gzx Gzx.CheckDigit Gzx.Det Gzx.OneDRowExt Gzx.Proofs.OneDRowExtTotal
 open Gzx.OneD (Tables refTables notFoundOf)
@@ -77,6 +77,30 @@ theorem upcean_extension_decodeRow_total {V : Type} (O : VarOps V) (T : Tables) 
 /-- `parseExtension5String` / `parseExtensionString` never leave their string: no panic on ANY raw string of five bytes -/
 theorem upcean_parseExtension5_total (raw : List Nat) : ∃ m, parseExtension5 raw = .ok m := parseExtension5_ok raw
 
+/-- **ALLOWED_EAN_EXTENSIONS is respected**, on the observable result: with the hint `l` (a `[]int`), whatever any of the
+    four single-format readers returns reports an add-on (`UPC_EAN_EXTENSION` metadata) whose length is in `l`, no add-on
+    counting as length 0 — for every row; the country / symbology metadata written afterwards and the UPC-A conversion
+    cannot disturb it. -/
+theorem upcean_allowed_extensions_respected {V : Type} (O : VarOps V) (T : Tables) (X : ExtTables) (k : EanKind) (rn : Int)
+    (row : List Bool) (h : Hints) (l : List Int) (hl : h.allowedExt = some l) (res : RowResult)
+    (hr : (decodeRow O T X k rn row h).2 = .ok res) : ((extLen res : Nat) : Int) ∈ l := by
+  unfold decodeRow at hr
+  cases hs : notFoundOf (findStartGuardPattern O T row) with
+  | error e => rw [hs] at hr; cases hr
+  | ok sg => rw [hs] at hr; exact readerWithStart_allowed O T X k rn row h l hl sg res hr
+
+/-- … and by the multi-format reader, for every sub-reader list -/
+theorem upcean_multi_allowed_extensions_respected {V : Type} (O : VarOps V) (T : Tables) (X : ExtTables)
+    (readers : List EanKind) (rn : Int) (row : List Bool) (h : Hints) (l : List Int) (hl : h.allowedExt = some l)
+    (res : RowResult) (hr : (multiDecodeRow O T X readers rn row h).2 = .ok res) : ((extLen res : Nat) : Int) ∈ l := by
+  unfold multiDecodeRow at hr
+  cases hs : notFoundOf (findStartGuardPattern O T row) with
+  | error e => rw [hs] at hr; cases hr
+  | ok sg =>
+    rw [hs] at hr
+    exact multiLoopA_allowed (fun k => readerWithStart O T X k rn row h sg) h.canUPCA l
+      (fun k r hk => readerWithStart_allowed O T X k rn row h l hl sg r hk) readers [] res hr
+
 /-! ### non-vacuity: the reference tables satisfy the hypothesis; the hypothesis is needed; concrete rows -/
 
 example : wfRow refTables refExt = true := by decide
@@ -93,6 +117,17 @@ example : ((decodeRow VarOps.exact refTables refExt .ean8 7 ean8Row {}).2.toOpti
     some (OneD.bytesOf "96385074") := by decide +kernel
 
 example : ((decodeRow VarOps.exact refTables refExt .ean13 7 ean8Row {}).2.toOption.map (·.text)) = none := by decide +kernel
+
+/-- EAN-8 "96385074" followed by the two-digit add-on "34": with ALLOWED_EAN_EXTENSIONS = [2] a result whose reported
+    add-on has length 2; with [5] refused (instances of `upcean_allowed_extensions_respected`) -/
+def ean8AddOnRow : List Bool := parseBits
+  ("000000010100010110101111011110101101110101010011101110010100010010111001010000000" ++ "00" ++
+   "1011" ++ "0100001" ++ "01" ++ "0100011" ++ "0000000")
+
+example : ((decodeRow VarOps.exact refTables refExt .ean8 0 ean8AddOnRow { allowedExt := some [2] }).2.toOption.map extLen) =
+    some 2 := by decide +kernel
+example : ((decodeRow VarOps.exact refTables refExt .ean8 0 ean8AddOnRow { allowedExt := some [5] }).2.toOption.map extLen) =
+    none := by decide +kernel
 
 /-- price strings: the currency switch and the three special codes -/
 example : parseExtension5String (OneD.bytesOf "51299") = .ok (OneD.bytesOf "$12.99") := by decide
